@@ -216,6 +216,11 @@ def run_error(env, sec, kind, state, res):
         if sec == 'lua':
             return
         args = ['build', out, '--' + sec, env.src_lua]
+    elif kind == 'outext':
+        # OUT itself has an unusable name: nothing may be created
+        out = os.path.join(env.d, 'out_' + sec + '.txt')
+        before = None
+        args = ['build', out, '--' + sec, env.src_p8]
     case = {'error': kind, 'section': sec, 'out': state}
     res.nontriv((sec, kind, state))
     try:
@@ -293,7 +298,7 @@ def run_shard(item):
         elif item[0] == 'errors':
             for state in OUT_STATES:
                 for sec in SECTIONS:
-                    for kind in ('both', 'missing', 'wrongext', 'luaext'):
+                    for kind in ('both', 'missing', 'wrongext', 'luaext', 'outext'):
                         run_error(env, sec, kind, state, res)
             res.sample({'error': 'both --gfx and --empty-gfx', 'out': 'existing-p8'})
     finally:
